@@ -263,8 +263,10 @@ func run[E any, P fields.Ptr[E]](c *mon.Ctx, f *fields.Field[E, P]) {
 				_, err := P(&z1).SetInterface(v.Int64())
 				c.Check("SetInterface", N+"/SetInterface/int64-error", err == nil, d("SetInterface(int64)"))
 				eqv("SetInterface", "SetInterface/int64-not-residue", &z1, v, d("SetInterface(int64)"))
-				_, _ = P(&z1).SetInterface(int(v.Int64()))
-				eqv("SetInterface", "SetInterface/int-not-residue", &z1, v, d("SetInterface(int)"))
+				if int64(int(v.Int64())) == v.Int64() { // int has 32 bits on the 386 build
+					_, _ = P(&z1).SetInterface(int(v.Int64()))
+					eqv("SetInterface", "SetInterface/int-not-residue", &z1, v, d("SetInterface(int)"))
+				}
 			}
 			if v.IsUint64() {
 				var z1 E
